@@ -63,7 +63,7 @@ func c01GetAlphabet() *c01Alphabet {
 			"||example.org^$important",
 			"example$denyallow=x.com",
 			"||h1.test^$client=10.0.0.1,ctag=pc,dnstype=A",
-			"/реклама-x",              // shortcut windows with bytes >= 0x80 (index key is byte-wise)
+			"реклама-x",               // shortcut windows with bytes >= 0x80 (index key is byte-wise)
 			"/ad$domain=co.uk",        // $domain naming a public suffix (ICANN)
 			"/ad$domain=github.io|uk", // private suffix and a TLD
 		}
@@ -79,6 +79,8 @@ func c01GetAlphabet() *c01Alphabet {
 			"ads5.example.org^",        // un-anchored: matched against the bare hostname for hostname requests
 			"||EXAMPLE.org^$important", // upper case in the pattern, lower-cased shortcut
 			"! a comment line",         // a list may consist of nothing but such lines
+			"реклама-x$script",         // shares every window with the core rule: filed under a window that starts inside a character
+			"реклама-x$important",
 		)
 		long := "http://example.org/ads?" + strings.Repeat("x", 4070) + "/banner-ads-"
 		urls := []string{"http://example.org/", "https://sub.example.org/ads?x=1", "http://x.com/banner", "http://EXAMPLE.ORG/ADS", "http://example.org/?u=example.org",
